@@ -37,8 +37,8 @@ type integer interface {
 type pos[T integer] struct {
 	A T
 	P *T
-	O T `json:"o,omitempty"`
-	S T `json:"s,string"`
+	O T  `json:"o,omitempty"`
+	S T  `json:"s,string"`
 	Q *T `json:"q,string"`
 	M map[T]int
 	E [1]T
@@ -499,7 +499,5 @@ func TestReplay(t *testing.T) {
 }
 
 func TestWitness(t *testing.T) {
-	if !known.RunDecWitness() {
-		t.Fatalf("unknown witness %q", rt.E.Witness)
-	}
+	known.RunWitness()
 }
